@@ -1988,7 +1988,7 @@ func (c *Chain) emitCorrupt(m *mctx, mu *mutator, hs HonestStep, pre common.Beac
 }
 
 func orValid(e string) string {
-	if e == "invalid" || e == "error" {
+	if e != "none" && e != "valid" {
 		return "valid"
 	}
 	return e
